@@ -134,3 +134,48 @@ func (sc *Scenario) Describe() map[string]any {
 	d["B_to_A"] = desc(sc.MsgsB)
 	return d
 }
+
+// GenSmallScenario draws a scenario whose transcript stays within a few kilobytes (for exhaustive
+// fault enumeration): 0..nMax small messages each way, accept/defer policies only (a reject then
+// always means "the receiver already holds it").
+func GenSmallScenario(r *rand.Rand, nMax int, withDefer bool) (*Scenario, error) {
+	sc := &Scenario{Policy: map[string]fbb.ProposalAnswer{}, Truth: map[string][]byte{}}
+	sc.MasterIsA = r.Intn(2) == 0
+	sc.BatchedA, sc.BatchedB = r.Intn(2) == 0, r.Intn(2) == 0
+	sc.Seg = []int{0, 3}[r.Intn(2)]
+	na, nb := r.Intn(nMax+1), r.Intn(nMax+1)
+	if na+nb == 0 {
+		na = 1
+	}
+	gen := func(n int, prefix, from, to string) ([]MsgSpec, error) {
+		var out []MsgSpec
+		for i := 0; i < n; i++ {
+			m := MsgSpec{MID: GenMID(r, prefix, i), From: from, To: []string{to}}
+			m.Subject = fmt.Sprintf("small %d", r.Intn(100))
+			m.Body = genBytes(r, 1+r.Intn(300), r.Intn(4))
+			if r.Intn(4) == 0 {
+				m.Files = []FileSpec{{Name: "f.bin", Data: genBytes(r, r.Intn(200), 0)}}
+			}
+			m.Shape = fmt.Sprintf("body[%d] files[%d]", len(m.Body), len(m.Files))
+			c, err := m.Canonical()
+			if err != nil {
+				return nil, err
+			}
+			sc.Truth[m.MID] = c
+			sc.Policy[m.MID] = fbb.Accept
+			if withDefer && r.Intn(6) == 0 {
+				sc.Policy[m.MID] = fbb.Defer
+			}
+			out = append(out, m)
+		}
+		return out, nil
+	}
+	var err error
+	if sc.MsgsA, err = gen(na, "A", CallA, CallB); err != nil {
+		return nil, err
+	}
+	if sc.MsgsB, err = gen(nb, "B", CallB, CallA); err != nil {
+		return nil, err
+	}
+	return sc, nil
+}
